@@ -93,6 +93,8 @@ def run(ctx):
         if len(reqs) >= 15000:
             flush()     # keep memory bounded in long runs
         info = fam[i % len(fam)] if i < len(fam) or rng.random() < 0.5 else schemas.random_schema(rng)
+        if i == len(fam):
+            info = schemas.inline_content_schema()     # an inline node with content, atoms with content
         ctx.driver.add_schema(info)
         docs = [gen.gen_doc(rng, info.schema, budget=rng.choice([8, 15, 30])) for _ in range(ctx.budget(6, 12))]
         pools.append((info, docs))
